@@ -10,14 +10,33 @@ namespace Pylx
 namespace C02
 open Doc
 
-/-- group delimiters: `br` = the bracket pair of an optional argument has been added -/
-def brPairs : Bool → Pairs
-  | false => [(['{'], ['}'])]
-  | true => [(['{'], ['}']), (['['], [']'])]
+/-- an extra pair of group delimiters (inside the bracket group of an optional argument, inside a delimited argument) -/
+abbrev Xp := Option (Char × Char)
 
-/-- the parsing states of a run on a core document: default fields, the context's specials, a mode; `br` = inside
-    the bracket group of an optional argument -/
-def stdF (keys : List Str) (m : Bool) (md : Option Str) (ee : Bool) (br : Bool := false) : PSFields :=
+/-- the bracket pair of an optional argument -/
+def xbr : Xp := some ('[', ']')
+
+/-- group delimiters: the brace pair and possibly one extra pair -/
+def brPairs : Xp → Pairs
+  | none => [(['{'], ['}'])]
+  | some (o, c) => [(['{'], ['}']), ([o], [c])]
+
+/-- the extra pair is made of two different delimiter characters -/
+def XpOk : Xp → Prop
+  | none => True
+  | some (o, c) => isXDelim o = true ∧ isXDelim c = true ∧ o ≠ c
+
+theorem xpOk_br : XpOk xbr := ⟨by decide, by decide, by decide⟩
+
+theorem xdelim_ne {c : Char} (h : isXDelim c = true) :
+    c ≠ '$' ∧ c ≠ '\\' ∧ c ≠ '%' ∧ c ≠ '{' ∧ c ≠ '}' ∧ isPySpace c = false := by
+  unfold isXDelim at h
+  simp only [Bool.or_eq_true, beq_iff_eq] at h
+  rcases h with ((((h | h) | h) | h) | h) | h <;> (subst h; decide)
+
+/-- the parsing states of a run on a core document: default fields, the context's specials, a mode; `br` = the extra
+    pair of group delimiters inside a bracket group / a delimited argument -/
+def stdF (keys : List Str) (m : Bool) (md : Option Str) (ee : Bool) (br : Xp := none) : PSFields :=
   { inMath := m, mathDelim := md, enEnvs := ee, specials := keys, groupDelims := brPairs br }
 
 /-- `set_fields` invariant: outside math mode there is no math delimiter -/
@@ -36,18 +55,18 @@ def stdExpect (m : Bool) (md : Option Str) : Option (Str × Bool) :=
   | none => none
   | some d => lookupLast d stdMathByOpen
 
-theorem mkPS_std (keys : List Str) (m : Bool) (md : Option Str) (ee br : Bool) (h : NormOk m md) :
+theorem mkPS_std (keys : List Str) (m : Bool) (md : Option Str) (ee : Bool) (br : Xp) (h : NormOk m md) :
     mkPS (stdF keys m md ee br) =
       { f := stdF keys m md ee br,
         t := { groupByOpen := brPairs br, groupClose := (brPairs br).map (·.2), mathStart := stdMathStart,
                mathAll := stdMathAll, mathByOpen := stdMathByOpen, expectClose := stdExpect m md } } := by
   cases m with
-  | false => cases (h rfl); cases br <;> rfl
-  | true => cases br <;> rfl
+  | false => cases (h rfl); rcases br with _ | ⟨o, c⟩ <;> rfl
+  | true => rcases br with _ | ⟨o, c⟩ <;> rfl
 
 
 /-- the facts about a tokenizer state that the token lemmas use -/
-structure PSStd (keys : List Str) (ee' m' : Bool) (ex' : Option (Str × Bool)) (br : Bool) (ps : PState) : Prop where
+structure PSStd (keys : List Str) (ee' m' : Bool) (ex' : Option (Str × Bool)) (br : Xp) (ps : PState) : Prop where
   ms : ps.t.mathStart = stdMathStart
   all : ps.t.mathAll = stdMathAll
   byOpen : ps.t.mathByOpen = stdMathByOpen
@@ -69,7 +88,7 @@ structure PSStd (keys : List Str) (ee' m' : Bool) (ex' : Option (Str × Bool)) (
   inMath : ps.f.inMath = m'
   expect : ps.t.expectClose = ex'
 
-theorem psStd_std (keys : List Str) (m : Bool) (md : Option Str) (ee br : Bool) (h : NormOk m md) :
+theorem psStd_std (keys : List Str) (m : Bool) (md : Option Str) (ee : Bool) (br : Xp) (h : NormOk m md) :
     PSStd keys ee m (stdExpect m md) br (mkPS (stdF keys m md ee br)) := by
   rw [mkPS_std _ _ _ _ _ h]
   constructor <;> rfl
@@ -261,7 +280,7 @@ theorem peekImpl_ws_eos {ps : PState} {s : Str} {p : Nat} {w : Str} (hd : s.drop
 /-! ### tokens -/
 
 section tokens
-variable {keys : List Str} {ee m br : Bool} {ex : Option (Str × Bool)} {ps : PState} {s : Str} {p : Nat}
+variable {keys : List Str} {ee m : Bool} {br : Xp} {ex : Option (Str × Bool)} {ps : PState} {s : Str} {p : Nat}
 
 theorem mathStart_not {c : Char} (h1 : c ≠ '$') (h2 : c ≠ '\\') : stdMathStart.contains c = false := by
   simp [stdMathStart, h1, h2]
@@ -284,7 +303,7 @@ theorem peekAtChar_toGroups (hps : PSStd keys ee m ex br ps) {c : Char} {rest pr
 
 /-- a character that starts neither math, an escape, a comment, a group nor a specials is a `char` token -/
 theorem peekAtChar_plain (hps : PSStd keys ee m ex br ps) {c : Char} {rest pre : Str} (hd : s.drop p = c :: rest)
-    (h1 : c ≠ '$') (h2 : c ≠ '\\') (h3 : c ≠ '%') (h4 : c ≠ '{') (h5 : c ≠ '}') (h6 : br = true → c ≠ '[' ∧ c ≠ ']')
+    (h1 : c ≠ '$') (h2 : c ≠ '\\') (h3 : c ≠ '%') (h4 : c ≠ '{') (h5 : c ≠ '}') (h6 : ∀ o c', br = some (o, c') → c ≠ o ∧ c ≠ c')
     (hsp : testSpecials keys s p = none) :
     peekAtChar ps s p c pre = .tok { kind := .char, arg := [c], pos := p, posEnd := p + 1, pre := pre } := by
   rw [peekAtChar_toGroups hps hd h1 h2 h3]
@@ -293,13 +312,13 @@ theorem peekAtChar_plain (hps : PSStd keys ee m ex br ps) {c : Char} {rest pre :
   have e3 : (['{'] == [c]) = false := by simp [Ne.symm h4]
   have e4 : (['}'] == [c]) = false := by simp [Ne.symm h5]
   have e5 : (brPairs br).any (fun d => d.1 == [c]) = false := by
-    cases br with
-    | false => simp [brPairs, Ne.symm h4]
-    | true => simp [brPairs, Ne.symm h4, Ne.symm (h6 rfl).1]
+    rcases br with _ | ⟨o, c'⟩
+    · simp [brPairs, Ne.symm h4]
+    · simp [brPairs, Ne.symm h4, Ne.symm (h6 o c' rfl).1]
   have e6 : ((brPairs br).map (·.2)).any (fun d => d == [c]) = false := by
-    cases br with
-    | false => simp [brPairs, Ne.symm h5]
-    | true => simp [brPairs, Ne.symm h5, Ne.symm (h6 rfl).2]
+    rcases br with _ | ⟨o, c'⟩
+    · simp [brPairs, Ne.symm h5]
+    · simp [brPairs, Ne.symm h5, Ne.symm (h6 o c' rfl).2]
   simp only [e5, e6, if_true, Bool.false_eq_true, if_false]
   unfold peekSpecialsOrChar
   rw [hps.hc, hps.es, hps.sp]
@@ -308,20 +327,36 @@ theorem peekAtChar_plain (hps : PSStd keys ee m ex br ps) {c : Char} {rest pre :
   rw [hps.fb]
   simp
 
+theorem textChar_not_xdelim {c : Char} (h : isTextChar c = true) : isXDelim c = false := by
+  cases hx : isXDelim c with
+  | false => rfl
+  | true =>
+    exfalso
+    unfold isXDelim at hx
+    simp only [Bool.or_eq_true, beq_iff_eq] at hx
+    rcases hx with ((((hx | hx) | hx) | hx) | hx) | hx <;> (subst hx; revert h; decide)
+
+/-- a character that is not a delimiter character differs from the characters of the extra pair -/
+theorem ne_xp_of_not_xdelim {br : Xp} (hx : XpOk br) {c : Char} (hc : isXDelim c = false) :
+    ∀ o c', br = some (o, c') → c ≠ o ∧ c ≠ c' := by
+  intro o c' e
+  subst e
+  obtain ⟨h1, h2, _⟩ := hx
+  refine ⟨?_, ?_⟩ <;> (intro e; subst e; rw [hc] at *; contradiction)
+
 /-- a text character is a `char` token -/
-theorem peekAtChar_text (hps : PSStd keys ee m ex br ps) (hk : keysCore keys = true) {c : Char} {rest pre : Str}
+theorem peekAtChar_text (hps : PSStd keys ee m ex br ps) (hx : XpOk br) (hk : keysCore keys = true) {c : Char} {rest pre : Str}
     (hd : s.drop p = c :: rest) (hc : isTextChar c = true) :
     peekAtChar ps s p c pre = .tok { kind := .char, arg := [c], pos := p, posEnd := p + 1, pre := pre } := by
   obtain ⟨h1, h2, h3, h4, h5, _⟩ := textChar_ne hc
-  refine peekAtChar_plain hps hd h1 h2 h3 h4 h5 (fun _ => ⟨?_, ?_⟩) (testSpecials_free hk hd (keyFree_of_text hc))
-  · intro e; subst e; revert hc; decide
-  · intro e; subst e; revert hc; decide
+  exact peekAtChar_plain hps hd h1 h2 h3 h4 h5 (ne_xp_of_not_xdelim hx (textChar_not_xdelim hc))
+    (testSpecials_free hk hd (keyFree_of_text hc))
 
 /-- `*` is a `char` token -/
-theorem peekAtChar_star (hps : PSStd keys ee m ex br ps) (hk : keysCore keys = true) {rest pre : Str}
+theorem peekAtChar_star (hps : PSStd keys ee m ex none ps) (hk : keysCore keys = true) {rest pre : Str}
     (hd : s.drop p = '*' :: rest) :
     peekAtChar ps s p '*' pre = .tok { kind := .char, arg := ['*'], pos := p, posEnd := p + 1, pre := pre } :=
-  peekAtChar_plain hps hd (by decide) (by decide) (by decide) (by decide) (by decide) (fun _ => ⟨by decide, by decide⟩)
+  peekAtChar_plain hps hd (by decide) (by decide) (by decide) (by decide) (by decide) (fun _ _ h => by cases h)
     (testSpecials_free hk hd (by decide))
 
 theorem peekAtChar_open (hps : PSStd keys ee m ex br ps) {rest pre : Str} (hd : s.drop p = '{' :: rest) :
@@ -329,28 +364,35 @@ theorem peekAtChar_open (hps : PSStd keys ee m ex br ps) {rest pre : Str} (hd : 
   rw [peekAtChar_toGroups hps hd (by decide) (by decide) (by decide)]
   unfold peekGroups
   rw [hps.eg, hps.go]
-  cases br <;> simp [brPairs]
+  rcases br with _ | ⟨o, c⟩ <;> simp [brPairs]
 
-theorem peekAtChar_close (hps : PSStd keys ee m ex br ps) {rest pre : Str} (hd : s.drop p = '}' :: rest) :
+theorem peekAtChar_close (hps : PSStd keys ee m ex none ps) {rest pre : Str} (hd : s.drop p = '}' :: rest) :
     peekAtChar ps s p '}' pre = .tok { kind := .braceClose, arg := ['}'], pos := p, posEnd := p + 1, pre := pre } := by
   rw [peekAtChar_toGroups hps hd (by decide) (by decide) (by decide)]
   unfold peekGroups
   rw [hps.eg, hps.go, hps.gc]
-  cases br <;> simp [brPairs]
+  simp [brPairs]
 
-theorem peekAtChar_bopen (hps : PSStd keys ee m ex true ps) {rest pre : Str} (hd : s.drop p = '[' :: rest) :
-    peekAtChar ps s p '[' pre = .tok { kind := .braceOpen, arg := ['['], pos := p, posEnd := p + 1, pre := pre } := by
-  rw [peekAtChar_toGroups hps hd (by decide) (by decide) (by decide)]
+/-- the opening delimiter of the extra pair -/
+theorem peekAtChar_xopen {o c : Char} (hps : PSStd keys ee m ex (some (o, c)) ps) (hx : XpOk (some (o, c))) {rest pre : Str}
+    (hd : s.drop p = o :: rest) :
+    peekAtChar ps s p o pre = .tok { kind := .braceOpen, arg := [o], pos := p, posEnd := p + 1, pre := pre } := by
+  obtain ⟨h1, h2, h3, _, _, _⟩ := xdelim_ne hx.1
+  rw [peekAtChar_toGroups hps hd h1 h2 h3]
   unfold peekGroups
   rw [hps.eg, hps.go]
   simp [brPairs]
 
-theorem peekAtChar_bclose (hps : PSStd keys ee m ex true ps) {rest pre : Str} (hd : s.drop p = ']' :: rest) :
-    peekAtChar ps s p ']' pre = .tok { kind := .braceClose, arg := [']'], pos := p, posEnd := p + 1, pre := pre } := by
-  rw [peekAtChar_toGroups hps hd (by decide) (by decide) (by decide)]
+/-- the closing delimiter of the extra pair -/
+theorem peekAtChar_xclose {o c : Char} (hps : PSStd keys ee m ex (some (o, c)) ps) (hx : XpOk (some (o, c))) {rest pre : Str}
+    (hd : s.drop p = c :: rest) :
+    peekAtChar ps s p c pre = .tok { kind := .braceClose, arg := [c], pos := p, posEnd := p + 1, pre := pre } := by
+  obtain ⟨h1, h2, h3, h4, _, _⟩ := xdelim_ne hx.2.1
+  rw [peekAtChar_toGroups hps hd h1 h2 h3]
   unfold peekGroups
   rw [hps.eg, hps.go, hps.gc]
-  simp [brPairs]
+  have hoc : o ≠ c := hx.2.2
+  simp [brPairs, Ne.symm h4, hoc]
 
 theorem peek_eos (ps : PState) (hd : s.drop p = []) : peekImpl ps s p = .eos [] :=
   peekImpl_ws_eos hd rfl (by decide)
@@ -374,6 +416,20 @@ theorem findIdx_nl (text r : Str) (h : text.contains '\n' = false) :
         subst e; simp at this
     simp only [List.cons_append, List.findIdx?_cons, hc, Bool.false_eq_true, if_false, ih h.2, Option.map_some, List.length_cons]
 
+theorem findIdx_char (d : Char) (text r : Str) (h : text.contains d = false) :
+    (text ++ d :: r).findIdx? (· == d) = some text.length := by
+  induction text with
+  | nil => simp [List.findIdx?_cons]
+  | cons c text ih =>
+    simp only [List.contains_cons, Bool.or_eq_false_iff] at h
+    have hc : (c == d) = false := by
+      cases hh : (c == d) with
+      | false => rfl
+      | true =>
+        have e : c = d := by simpa using hh
+        subst e; simp at h
+    simp only [List.cons_append, List.findIdx?_cons, hc, Bool.false_eq_true, if_false, ih h.2, Option.map_some, List.length_cons]
+
 theorem postSpaceAt_of_drop {s : Str} {q : Nat} {w r : Str} (hd : s.drop q = w ++ r) (hw : isWs w = true)
     (hnl : countNl w < 2) (hr : headIs isPySpace r = false) : postSpaceAt s q = w := by
   unfold postSpaceAt
@@ -381,13 +437,73 @@ theorem postSpaceAt_of_drop {s : Str} {q : Nat} {w r : Str} (hd : s.drop q = w +
   simp only
   rw [if_neg (by omega)]
 
-section comment
-variable {keys : List Str} {ee m br : Bool} {ex : Option (Str × Bool)} {ps : PState} {s : Str} {p : Nat}
+/-- in front of a paragraph break the tokenizer takes no post-space -/
+theorem postSpaceAt_par {s : Str} {q : Nat} {R : Str} (hd : s.drop q = R) (hp : parStart R = true) : postSpaceAt s q = [] := by
+  unfold parStart at hp
+  simp only [Bool.and_eq_true, beq_iff_eq, decide_eq_true_eq] at hp
+  unfold postSpaceAt spaceRun
+  rw [hd]
+  simp only
+  rw [if_pos hp.2]
+  cases R with
+  | nil => cases hp.1
+  | cons c R =>
+    have hc : c = '\n' := by simpa using hp.1
+    subst hc
+    have : isPySpace '\n' = true := by decide
+    simp [this, firstNl, List.findIdx_cons]
 
-theorem peekAtChar_comment (hps : PSStd keys ee m ex br ps) {text post r pre : Str}
-    (hd : s.drop p = '%' :: (text ++ '\n' :: (post ++ r))) (htext : text.contains '\n' = false)
-    (hws : isWs ('\n' :: post) = true) (hnl : countNl ('\n' :: post) < 2) (hr : headIs isPySpace r = false) :
-    peekAtChar ps s p '%' pre = .tok ({ kind := .comment, arg := text, pos := p, posEnd := p + 1 + text.length + (1 + post.length), pre := pre, post := '\n' :: post } : Token) := by
+theorem lastNlEnd_of_getLast : ∀ (x : Str), x.getLast? = some '\n' → lastNlEnd x = x.length
+  | [], h => by cases h
+  | [c], h => by
+    have : c = '\n' := by simpa using h
+    subst this
+    rfl
+  | c :: d :: x, h => by
+    have h' : (d :: x).getLast? = some '\n' := by simpa [List.getLast?_cons_cons] using h
+    have ih := lastNlEnd_of_getLast (d :: x) h'
+    rw [lastNlEnd, ih]
+    simp
+
+/-- a paragraph break (whitespace with at least two newlines, beginning and ending with a newline) is one token:
+    the specials `\n\n` when the state's context declares them, a `char` token holding the whole break otherwise -/
+theorem peekImpl_par {ps : PState} {s : Str} {p : Nat} {x r : Str} (hd : s.drop p = x ++ r) (hw : isWs x = true)
+    (hn : countNl x ≥ 2) (hh : x.head? = some '\n') (hl : x.getLast? = some '\n') (hr : headIs isPySpace r = false)
+    (hdn : ps.f.enDblNl = true) :
+    peekImpl ps s p =
+      if parSpecials ps then .tok { kind := .specials, arg := ['\n', '\n'], pos := p, posEnd := p + x.length, pre := [] }
+      else .tok { kind := .char, arg := x, pos := p, posEnd := p + x.length, pre := [] } := by
+  have hsr : spaceRun s p = x := spaceRun_of_drop hd hw hr
+  unfold peekImpl
+  dsimp only
+  rw [hsr, hdn]
+  have h1 : decide (countNl x ≥ 2) = true := by simpa using hn
+  rw [h1]
+  simp only [Bool.and_self, if_true]
+  unfold peekPar
+  have hf : firstNl x = 0 := by
+    cases x with
+    | nil => cases hh
+    | cons c x =>
+      have hc : c = '\n' := by simpa using hh
+      subst hc
+      simp [firstNl, List.findIdx_cons]
+  have hsl : slice s p (p + x.length) = x := by
+    unfold slice
+    rw [hd]
+    have : p + x.length - p = x.length := by omega
+    rw [this, List.take_left']
+    rfl
+  simp only [hf, lastNlEnd_of_getLast x hl, List.take_zero, Nat.add_zero, hsl]
+
+section comment
+variable {keys : List Str} {ee m : Bool} {br : Xp} {ex : Option (Str × Bool)} {ps : PState} {s : Str} {p : Nat}
+
+/-- a comment line; `post` is whatever the tokenizer takes as the post-space behind the newline -/
+theorem peekAtChar_comment_gen (hps : PSStd keys ee m ex br ps) {text R post pre : Str}
+    (hd : s.drop p = '%' :: (text ++ '\n' :: R)) (htext : text.contains '\n' = false)
+    (hpost : postSpaceAt s (p + 1 + text.length) = post) :
+    peekAtChar ps s p '%' pre = .tok ({ kind := .comment, arg := text, pos := p, posEnd := p + 1 + text.length + post.length, pre := pre, post := post } : Token) := by
   unfold peekAtChar
   have e0 : stdMathStart.contains '%' = false := by decide
   rw [hps.ms, e0]
@@ -398,11 +514,11 @@ theorem peekAtChar_comment (hps : PSStd keys ee m ex br ps) {text post r pre : S
   simp only [e1, Bool.false_eq_true, if_false]
   unfold peekComment
   rw [startsWithAt_of_drop hd, hps.cs, hps.ec]
-  have e2 : List.isPrefixOf ['%'] ('%' :: (text ++ '\n' :: (post ++ r))) = true := by simp [List.isPrefixOf]
+  have e2 : List.isPrefixOf ['%'] ('%' :: (text ++ '\n' :: R)) = true := by simp [List.isPrefixOf]
   simp only [e2, List.isEmpty_cons, Bool.not_false, Bool.and_self, if_true]
   unfold readComment
   rw [hps.cs]
-  have hd1 : s.drop (p + 1) = text ++ '\n' :: (post ++ r) := drop_succ_of_drop hd
+  have hd1 : s.drop (p + 1) = text ++ '\n' :: R := drop_succ_of_drop hd
   have hfind : findCharFrom s '\n' (p + [ '%' ].length) = some (p + 1 + text.length) := by
     unfold findCharFrom
     show (match (s.drop (p + 1)).findIdx? (· == '\n') with | some i => some (p + 1 + i) | none => none) = _
@@ -410,10 +526,7 @@ theorem peekAtChar_comment (hps : PSStd keys ee m ex br ps) {text post r pre : S
   dsimp only
   rw [hfind]
   dsimp only
-  have hd2 : s.drop (p + 1 + text.length) = ('\n' :: post) ++ r := by
-    have := drop_add_of_drop hd1
-    simpa using this
-  rw [postSpaceAt_of_drop hd2 hws hnl hr]
+  rw [hpost]
   have hsl : slice s (p + ['%'].length) (p + 1 + text.length) = text := by
     unfold slice
     show List.take (p + 1 + text.length - (p + 1)) (s.drop (p + 1)) = text
@@ -422,9 +535,28 @@ theorem peekAtChar_comment (hps : PSStd keys ee m ex br ps) {text post r pre : S
     rw [this, List.take_left']
     rfl
   rw [hsl]
+
+theorem peekAtChar_comment (hps : PSStd keys ee m ex br ps) {text post r pre : Str}
+    (hd : s.drop p = '%' :: (text ++ '\n' :: (post ++ r))) (htext : text.contains '\n' = false)
+    (hws : isWs ('\n' :: post) = true) (hnl : countNl ('\n' :: post) < 2) (hr : headIs isPySpace r = false) :
+    peekAtChar ps s p '%' pre = .tok ({ kind := .comment, arg := text, pos := p, posEnd := p + 1 + text.length + (1 + post.length), pre := pre, post := '\n' :: post } : Token) := by
+  have hd1 : s.drop (p + 1) = text ++ '\n' :: (post ++ r) := drop_succ_of_drop hd
+  have hd2 : s.drop (p + 1 + text.length) = ('\n' :: post) ++ r := by
+    have := drop_add_of_drop hd1
+    simpa using this
+  have := peekAtChar_comment_gen (pre := pre) hps hd htext (postSpaceAt_of_drop hd2 hws hnl hr)
+  rw [this]
   simp only [List.length_cons]
   congr 2
   omega
+
+/-- a comment line in front of a paragraph break: no post-space -/
+theorem peekAtChar_comment_par (hps : PSStd keys ee m ex br ps) {text R pre : Str}
+    (hd : s.drop p = '%' :: (text ++ '\n' :: R)) (htext : text.contains '\n' = false) (hpar : parStart ('\n' :: R) = true) :
+    peekAtChar ps s p '%' pre = .tok ({ kind := .comment, arg := text, pos := p, posEnd := p + 1 + text.length, pre := pre, post := [] } : Token) := by
+  have hd1 : s.drop (p + 1) = text ++ '\n' :: R := drop_succ_of_drop hd
+  have hd2 : s.drop (p + 1 + text.length) = '\n' :: R := drop_add_of_drop hd1
+  exact peekAtChar_comment_gen (pre := pre) hps hd htext (postSpaceAt_par hd2 hpar)
 
 end comment
 
